@@ -3,8 +3,9 @@
 M: ProviderVerify.tla exhaustively: the valid next request of a consumer/session x single deviation
    (nil, epoch, provider, spec, lava chain, content hash, signature, parse, seen block, addon, CU low /
    high / over the limit, relay number) x signature intact / signer unknown x pairing outcome
-   {valid, invalid, error}, from every reachable session state - invariants ServesOnlyAuthentic,
-   ServesOnlyInSync, RejectKeeps, ProofOnlyIfServed, ServedAccounting, NoLockLeak, CuBound.
+   {valid, invalid, error} for the request's epoch x {valid, invalid} for the other valid epoch x request epoch
+   {current, older but still valid}, from every reachable session state - invariants ServesOnlyAuthentic,
+   AsksRequestEpoch, ServesOnlyInSync, RejectKeeps, ProofOnlyIfServed, ServedAccounting, NoLockLeak, CuBound.
 G: TLC -simulate emits behaviours (signer, session, corruption kind, re-signed?, pairing outcome).
 R: harness/cmd/provverify sends them to a real RPCProviderServer wired through ServeRPCRequests (real
    chain parser/router with a local node, real ProviderSessionManager, recording reward server, mock state
@@ -73,6 +74,13 @@ def _trace_coverage(ctx, path):
     rej_pair = sum(1 for r in rows if not r["served"] and r["vpcalls"] > 0 and r["pairing"] != "valid")
     rej_after_session = sum(1 for r in rows if not r["served"] and r["kind"] in ("negseen", "badaddon", "cuover", "cusumlow", "relaynum", "unparsable")
                             and r["who"] in ("A", "B"))
+    served_prev = sum(1 for r in rows if r["served"] and r["ep"] == "prev")
+    differ_asked = sum(1 for r in rows if r["vpcalls"] > 0 and r["pairby"]["cur"] != r["pairby"]["prev"])
+    differ_served = sum(1 for r in rows if r["served"] and r["vpcalls"] > 0 and r["pairby"]["cur"] != r["pairby"]["prev"])
+    ctx.cov.update(served_in_older_valid_epoch=served_prev, pairing_asked_with_epochs_disagreeing=differ_asked,
+                   served_with_epochs_disagreeing=differ_served)
+    if served_prev < 10 or differ_asked < 20 or differ_served < 3:
+        raise vlib.Infra("vacuous replay: older-epoch served=%d, pairing asked while epochs disagree=%d (served %d)" % (served_prev, differ_asked, differ_served))
     ctx.cov.update(served=served, rejected=rejected, served_unknown_signer_paired=served_x,
                    rejected_by_pairing=rej_pair, rejected_after_session_lookup=rej_after_session)
     if missing or served < 50 or rejected < 100 or served_x < 3 or rej_pair < 10 or rej_after_session < 10:
@@ -102,7 +110,7 @@ def run(ctx):
                        "signed by the consumer or tampered after signing; pairing outcome valid/invalid/error); evaluations = requests sent; "
                        "non-trivial = behaviour contains a valid and a corrupted request; distinct by full request list")
     ctx.sample(behs[0][:4])
-    ctx.assumptions += ["one spec (ETH1 jsonrpc, eth_blockNumber, 10 CU), one epoch (100, blocked height 80), max CU 100, allowed missing CU threshold 0",
+    ctx.assumptions += ["one spec (ETH1 jsonrpc, eth_blockNumber, 10 CU), two valid epochs (current 100, older 90; blocked height 80) whose pairing answers may differ, max CU 100, allowed missing CU threshold 0",
                         "requests are sequential (concurrency of the session layer is C27)",
                         "used CU of a consumer is read by reflection from the session manager; the lock flag through VerifyLock()",
                         "signature forgery is out of scope: a request whose signed fields were altered recovers a different signer, whose pairing the chain decides",
